@@ -21,3 +21,7 @@ Fixpoint list_eqb {A} (eqb : A -> A -> bool) (l1 l2 : list A) : bool :=
 Definition qc_eqb (a b : Qc) : bool := Qeq_bool (this a) (this b).
 Definition option_eqb {A} (eqb : A -> A -> bool) (a b : option A) : bool :=
   match a, b with Some x, Some y => eqb x y | None, None => true | _, _ => false end.
+
+Definition qc_ltb (a b : Qc) : bool := match (a ?= b)%Qc with Lt => true | _ => false end.
+Definition qc_leb (a b : Qc) : bool := match (a ?= b)%Qc with Gt => false | _ => true end.
+Definition string_eqb (a b : String.string) : bool := if String.string_dec a b then true else false.
